@@ -22,6 +22,8 @@ func checkC18(c *Ctx, r *Report) {
 	c18R3(c, r)
 	c18R4(c, r)
 	c17R6as(c, r, "C18.R5.rsa-limits")
+	r.rule("C18.R5.alg-coverage", 2, "every algorithm Generate makes keys for (and Sign signs with) is handled by SIG.Verify")
+	algorithmCoverage(c, r, "C18.R5.alg-coverage", []string{"sign", "SIG.Verify"})
 	r.rule("C18.R1.name-eq", 1, "the signer-name test compares through equal(), which folds exactly A-Z on both sides")
 	foldRule(c, r, "C18.R1.name-eq")
 }
